@@ -834,8 +834,8 @@ func seqsOf(rows gen.Rows) []string {
 // ---------------------------------------------------------------- main
 
 func main() {
-	mon.SetNote("rule", "codon: one case = genetic code x first symbol x second symbol, the third symbol runs over the 48 symbols (22 nucleotide-compatible symbols ACGTU RYSWKMBDHVN - X ? . * O, their 18 lower-case letters, 8 foreign symbols); every codon goes alone through Sequence.Translate and GenAllPossibleCodons, and the whole slice as one sequence through Sequence/SeqBag/Alignment.Translate in frames 0,1,2 and all three. seq: random sequences (length 0..200, mostly 0..40 and 0..8; 7 residue mixes incl. U, lower case, IUPAC, unknown symbols, codon-sized and stray gaps) x frame 0,1,2,-1 x code x {Sequence, SeqBag with unequal lengths, Alignment}. codonalign: 1..6 gap-free nucleotide sequences of 3k+0..2 bases, their model translations padded with leading/trailing/internal/scattered gaps to one length, threaded back (plus missing / too short / too long sequences that must be refused). byref: gap-free alignments in frames 0,1,2 against plain translation; gapped alignments (whole-codon, intra-codon, runs, scattered, all-gap rows, gaps in the reference and/or the others) in frame 0 against the three stated relations. Non-trivial = a codon / sequence with an ambiguity code, gap, lower case, U or unknown symbol and a non-empty result; a protein alignment with at least one gap; a gapped alignment whose reference yields at least one residue. Distinct = (operation, frame, code, rows).")
-	mon.SetNote("assumptions", "NCBI tables 1, 2, 5 typed twice (mon/c05/ref.go: table 1 + documented differences; lib/ref/gencode.go: three AAs strings) and compared with each other on every codon of the exhaustive sub-space;; a sequence holding a symbol goalign's alphabet detection does not accept as nucleotide (Z E J ! 1 @ 0xe9 0xff) is not a nucleotide sequence: a 'wrong alphabet' error or the residue X are both accepted;; GenAllPossibleCodons on a codon with a gap: empty slice (doc comment) or the expansions with '-' kept (implementation) are both accepted;; frame -1 (all three frames) reports an error as soon as one of the three frames of one sequence holds no residue (length < 5);; Alignment.Translate(-1): only residues, per-row lengths and row naming/order are demanded unless length mod 3 == 2 (ragged result = recorded finding of C01);; TranslateByReference with fewer than 3 columns from the frame offset: an error or rows without residues are both accepted; with gaps only the stated relations are demanded (no error, same names and order, rectangular, reference row without gaps is a prefix of the translation of the ungapped reference), frame 0 only; frame -1 is not called on TranslateByReference (outside the statement; it panics, see report);; CodonAlign: nucleotide sequences are gap-free (a '---' codon would translate to a gap column of its own); the alphabet of the protein alignment is set to amino acids by the harness;; state of a container after a reported error is not examined;; the alphabet recorded in a container after translation is not examined")
+	mon.SetNote("rule", "codon: one case = genetic code x first symbol x second symbol, the third symbol runs over the 48 symbols (22 nucleotide-compatible symbols ACGTU RYSWKMBDHVN - X ? . * O, their 18 lower-case letters, 8 foreign symbols); every codon goes alone through Sequence.Translate and GenAllPossibleCodons, and the whole slice as one sequence through Sequence/SeqBag/Alignment.Translate in frames 0,1,2 and all three. seq: random sequences (length 0..200, mostly 0..40 and 0..8; 7 residue mixes incl. U, lower case, IUPAC, unknown symbols, codon-sized and stray gaps) x frame 0,1,2,-1 x code x {Sequence, SeqBag with unequal lengths, Alignment}. codonalign: 1..6 gap-free nucleotide sequences of 3k+0..2 bases, their model translations padded with leading/trailing/internal/scattered gaps to one length, threaded back (plus missing / too short / too long sequences that must be refused). byref: gap-free alignments in frames 0,1,2 against plain translation; gapped alignments (whole-codon, intra-codon, runs, scattered, all-gap rows, gaps in the reference and/or the others) in frame 0 against the three stated relations. Non-trivial = a codon / sequence with an ambiguity code, gap, lower case, U or unknown symbol and a non-empty result; a protein alignment with at least one gap; a gapped alignment whose reference yields at least one residue. Distinct = (operation, frame, code, rows). cli: the goalign binary built from the tree, `translate` on a file holding a FASTA alignment, FASTA sequences of unequal length (--unaligned), or 1..3 Phylip alignments (-p), either format with --auto-detect; --phase omitted/0/1/2/-1/3/4 (stratified by case index), --genetic-code omitted/standard/mitov/mitoi/an unknown value, --ref-seq with a name every alignment carries / an unknown name / together with --unaligned (documented as ignored), -o or stdout, --one-line/--no-block; sequences rich in the codons on which the three tables differ (AGA AGG ATA TGA in every spelling) placed in the requested frame; every alignment written is compared with the model (with --ref-seq: with Alignment.TranslateByReference on the same rows, checked by sub byref, plus the relations of the statement); refusals (unknown code, unknown reference, fewer than 3 nucleotides from the phase, protein input) must exit non-zero with a message and never crash.")
+	mon.SetNote("assumptions", "NCBI tables 1, 2, 5 typed twice (mon/c05/ref.go: table 1 + documented differences; lib/ref/gencode.go: three AAs strings) and compared with each other on every codon of the exhaustive sub-space;; a sequence holding a symbol goalign's alphabet detection does not accept as nucleotide (Z E J ! 1 @ 0xe9 0xff) is not a nucleotide sequence: a 'wrong alphabet' error or the residue X are both accepted;; GenAllPossibleCodons on a codon with a gap: empty slice (doc comment) or the expansions with '-' kept (implementation) are both accepted;; frame -1 (all three frames) reports an error as soon as one of the three frames of one sequence holds no residue (length < 5);; Alignment.Translate(-1): only residues, per-row lengths and row naming/order are demanded unless length mod 3 == 2 (ragged result = recorded finding of C01);; TranslateByReference with fewer than 3 columns from the frame offset: an error or rows without residues are both accepted; with gaps only the stated relations are demanded (no error, same names and order, rectangular, reference row without gaps is a prefix of the translation of the ungapped reference), frame 0 only; frame -1 is not called on TranslateByReference (outside the statement; it panics, see report);; CodonAlign: nucleotide sequences are gap-free (a '---' codon would translate to a gap column of its own); the alphabet of the protein alignment is set to amino acids by the harness;; state of a container after a reported error is not examined;; the alphabet recorded in a container after translation is not examined;; command line: --phase above 2 is read as 'number of characters to drop' (usage text) but a refusal is accepted too; --ref-seq with --phase -1 is not documented: any outcome but a crash is accepted; a file with a letter that is no nucleotide code (E F I L P Q Z): the documented error, or X for the codon; what is left in the output file after a refusal is not examined; Phylip input of --phase -1 is generated with length mod 3 == 2 (ragged three frame result = recorded finding of C01); a Phylip alignment without columns is written as its header only; global reading options (--input-strict, --ignore-identical, --alphabet, -x/-u/-k input) belong to C02/C03 and are not driven here")
 	mon.SetNote("exhaustive_subspaces", fmt.Sprintf("codon: 3 genetic codes x %d^3 = %d symbol triples (= %d codon evaluations, the floor 'codon:evaluated' is that exact number) are enumerated completely at BOTH tiers, %d cases of %d codons each; every triple is translated alone (Sequence.Translate frame 0), expanded (GenAllPossibleCodons) and, for the 40 nucleotide-compatible symbols, translated inside a longer sequence by Sequence/SeqBag/Alignment.Translate in frames 0, 1, 2 and -1", nSyms, nSyms*nSyms*nSyms, 3*nSyms*nSyms*nSyms, nCodonCases, nSyms))
 	mon.Floor("codon:evaluated", 3*nSyms*nSyms*nSyms)
 	for _, k := range []string{"plain", "ambiguous-unique", "ambiguous-X", "gap-full", "gap-partial", "unknown-symbol", "foreign-symbol"} {
@@ -868,11 +868,34 @@ func main() {
 	mon.Floor("gap-free:frame:2", 100)
 	mon.Floor("gapped:reference-with-gaps", 500)
 	mon.Floor("gapped:reference-all-gaps", 20)
+	// command line (sub cli)
+	mon.Floor("cli:runs", 250)
+	mon.Floor("cli:outcome:ok", 120)
+	mon.Floor("cli:refusal-expected", 15)
+	for _, k := range []string{"fasta", "unaligned", "phylip", "auto-fasta", "auto-phylip"} {
+		mon.Floor("cli:mode:"+k, 15)
+	}
+	for _, k := range []string{"<default>", "0", "1", "2", "-1"} {
+		mon.Floor("cli:phase:"+k, 20)
+	}
+	for _, k := range []string{"<default>", "standard", "mitov", "mitoi"} {
+		mon.Floor("cli:genetic-code:"+k, 15)
+	}
+	mon.Floor("cli:genetic-code:unknown-value", 5)
+	mon.Floor("cli:ref-seq:known", 30)
+	mon.Floor("cli:ref-seq:unknown", 10)
+	mon.Floor("cli:ref-seq-with-unaligned", 8)
+	mon.Floor("cli:by-reference-compared", 25)
+	mon.Floor("cli:by-reference-gapped", 5)
+	mon.Floor("cli:several-alignments", 30)
+	mon.Floor("cli:output:stdout", 30)
+	mon.Floor("cli:output:file", 30)
 	mon.Main("C05", []mon.Sub{
 		{Name: "witness", Quick: len(witnesses), Thorough: len(witnesses), Run: runWitness},
 		{Name: "codon", Quick: nCodonCases, Thorough: nCodonCases, Run: runCodon},
 		{Name: "seq", Quick: 300000, Thorough: 6000000, Run: runSeq},
 		{Name: "codonalign", Quick: 100000, Thorough: 2000000, Run: runCodonAlign},
 		{Name: "byref", Quick: 200000, Thorough: 3000000, Run: runByRef},
+		{Name: "cli", Quick: 300, Thorough: 3000, Serial: true, Run: runCli},
 	})
 }
